@@ -69,9 +69,11 @@ class Service(object):
     self._rec('names', m)
     return sorted(m)
 
-  def extra(self, s):
-    self._rec('extra', s)
-    return 'extra:' + s
+  def extra(self, *a):
+    self._rec('extra', *a)
+    if len(a) == 2:       # Ext2Service.extra(n, s)
+      return 'extra2:%d:%s' % a
+    return 'extra:' + a[0]
 
 
 def expected_reply(method, args):
